@@ -134,6 +134,8 @@ func main() {
 	var mu sync.Mutex
 	var results []bfsResult
 	var hot *hotStats
+	var mrs *mrStats
+	_ = mrs
 	var srs *srStats
 	finish := func() {
 		mu.Lock()
@@ -208,6 +210,27 @@ func main() {
 		}
 	}
 
+	// ---- many-runs family: a combiner that spilled R times, R around the powers of two ---
+	if want("manyruns") {
+		if r.Elapsed() > budget {
+			mrs = &mrStats{Skipped: true}
+			mrsGlobal = mrs
+			r.NotExhaustive("time budget: many-runs family not run")
+		} else {
+			exec.VerifC09SetCombiningFrameSizes(8, 3)
+			if err := flag.Set("bigslice-internal-default-chunk-rows", "3"); err != nil {
+				ev.Fatal("flag.Set: %v", err)
+			}
+			sortio.VerifC09SetChunk(3)
+			sliceio.SpillBatchSize = 3
+			x := manyRunsFamily(r, kinds)
+			mu.Lock()
+			mrs = x
+			mrsGlobal = x
+			mu.Unlock()
+		}
+	}
+
 	// ---- struct-value family: pointer-free struct values, runs longer than 3 batches ---
 	if want("structvalue") {
 		if r.Elapsed() > budget {
@@ -269,6 +292,8 @@ func listDir(dir string) map[string]bool {
 	return out
 }
 
+var mrsGlobal *mrStats
+
 func coverage(results []bfsResult, f *frameStats, c *combStats, hot *hotStats, srs *srStats, fp []framePlan, cp []combPlan) ev.Coverage {
 	if srs == nil {
 		srs = &srStats{}
@@ -326,7 +351,7 @@ func coverage(results []bfsResult, f *frameStats, c *combStats, hot *hotStats, s
 	return ev.Coverage{
 		"states":                        states,
 		"transitions":                   trans,
-		"traces_validated_against_impl": f.traces + c.readbacks + hot.Cases + srs.Cases, // every replay on a fresh real object
+		"traces_validated_against_impl": f.traces + c.readbacks + hot.Cases + srs.Cases + mrCases(), // every replay on a fresh real object
 		"max_depth":                     maxDepth,
 		// non-vacuity, measured over every executed history:
 		"histories_reaching_a_resize":         f.withResize,
@@ -367,8 +392,16 @@ func coverage(results []bfsResult, f *frameStats, c *combStats, hot *hotStats, s
 			"distinct_readback_outcomes":   c.outcomes.Distinct(),
 		},
 		"hotkey":      hot,
+		"many_runs":   mrsGlobal,
 		"structvalue": srs,
 		"spaces":      spaces,
 		"alphabets":   alphabets,
 	}
+}
+
+func mrCases() int64 {
+	if mrsGlobal == nil {
+		return 0
+	}
+	return mrsGlobal.Cases
 }
